@@ -8,7 +8,7 @@ gen = importlib.import_module("tcp_stream_gen")
 
 TRUSTED = [
     "Lean 4.33.0 kernel; axioms propext, Classical.choice, Quot.sound only (checked per theorem by #print axioms on every run)",
-    "hand-written mechanism model SimVerif/Tcp.lean of tcp::socket (write_some_impl segmentation, send_packet, packet_dropped, incoming_packet with the reorder buffer, read_some_impl over a buffer sequence, close, internal_connect), transcribed statement by statement; theorems (C05_prefix, C05_read_is_take, C05_eof_last, C05_reuse_empty, C05_asis_stale) hold in the open system TcpSys built from these functions, in which an adversarial network (a bag of in-flight segments) may deliver, drop, delay, duplicate-free reorder and hand back any droppable segment at any time",
+    "hand-written mechanism model SimVerif/Tcp.lean of tcp::socket (write_some_impl segmentation, send_packet, packet_dropped, incoming_packet with the reorder buffer, read_some_impl over a buffer sequence, close, internal_connect), transcribed statement by statement; theorems (C05_prefix, C05_written_is_accepted, C05_packets_genuine, C05_read_is_take, C05_eof_last, C05_reuse_empty, C05_reuse_attach_empty, C05_asis_stale, C05_ghost_*) hold for every label sequence of the open system SimVerif/StreamSys.lean built from these functions: ONE direction of one established connection (the opposite direction idle; the symmetric instance covers it), in which an adversarial network (a bag of in-flight packets) may deliver any packet at any time (arbitrary delay and reordering, no duplication), drop any packet carrying a drop callback (handing it back to packet_dropped), with the segmentation and retransmission loops run one iteration per label so that first-hop drops interleave anywhere; the theorems hold for all four TParams (repaired and pinned-tree window/wake-up behaviour alike)",
     "what the kernel and the queues guarantee to that open system (a packet is delivered or reported dropped at most once, unaltered) is C09/C10; ACK/EOF packets are never dropped (packet::ok_to_drop)",
     "correspondence: simdrv drives real tcp::socket / acceptor objects (ASan+UBSan) over real sim::queue routes with probe, NAT and scripted dropper hops; simcheck kernel composes the same Tcp.lean functions with the kernel, queue and registry models and must predict every line of the implementation's trace (API results, completions with byte counts and data digests, every packet at every probe, every drop)",
     "the trace-level statement (specs/tcp_stream.py) is evaluated on the implementation's own traces and does not use the model: payload bytes are regenerated from the deterministic stream function of the harness (stream_byte) and compared through the digests the harness prints (full hex up to 48 bytes, 64-bit FNV-1a above)",
